@@ -43,7 +43,113 @@ def bcast_along(t, dim):
     return e.permute(inv) if t.ndim > 1 else e
 
 
+def run_unit_family(ctx):
+    """co-indexed operands that represent ONE index type differently around one-element factors (`ptgen.unit_family`): the
+    unification of the two patterns must find their overlap; checked against the dense semiring einsum computed with torch"""
+    import warnings
+    n = 40 if ctx.quick else 600
+    for _ in range(n):
+        e, pe, f, pf = ptgen.unit_family(ctx.rng)
+        for name in ('real', 'viterbi', 'bool'):
+            sr = {'real': fggs.RealSemiring(dtype=torch.float64), 'viterbi': fggs.ViterbiSemiring(dtype=torch.float64), 'bool': fggs.BoolSemiring()}[name]
+            zero = sr.from_int(0).item()
+            def mk(ax, pax):
+                shp = tuple(k.numel() for k in pax)
+                if name == 'bool':
+                    ph = torch.tensor([ctx.rng.random() < 0.8 for _ in range(math.prod(shp))]).reshape(shp)
+                elif name == 'viterbi':
+                    ph = torch.tensor([ctx.rng.choice([0.0, -1.0, -2.0, 1.0]) for _ in range(math.prod(shp))], dtype=torch.float64).reshape(shp)
+                else:
+                    ph = torch.tensor([ctx.rng.choice([1.0, 2.0, 3.0, 0.5]) for _ in range(math.prod(shp))], dtype=torch.float64).reshape(shp)
+                return PatternedTensor(ph, pax, (ax,), zero)
+            t, u = mk(e, pe), mk(f, pf)
+            dt, du = t.to_dense(), u.to_dense()
+            for out in (['i'], []):
+                case = dict(semiring=name, operands=[ptgen.enc_pt(t), ptgen.enc_pt(u)], inputs=[['i'], ['i']], output=out, family='unit-factor')
+                ctx.case(case, ('unit-family', name, case['operands'][0], case['operands'][1], str(out)), sample_every=60)
+                ctx.count(f'unit-family.{name}')
+                if name == 'real':
+                    prod = dt * du; want = prod if out else prod.sum()
+                elif name == 'viterbi':
+                    prod = torch.nan_to_num(dt + du, nan=-math.inf, neginf=-math.inf, posinf=math.inf); want = prod if out else prod.max()
+                else:
+                    prod = dt & du; want = prod if out else prod.any()
+                try:
+                    with torch.no_grad(), warnings.catch_warnings():
+                        warnings.simplefilter('ignore')
+                        got = einsum([t, u], [['i'], ['i']], out, sr).to_dense()
+                except Exception as ex:  # noqa
+                    ctx.fail(f'einsum raised {type(ex).__name__}: {str(ex)[:80]}', case, repr(ex), None, tags=['raises', name, 'unit-family'])
+                    continue
+                if got.shape != want.shape or not bool(((got == want) | ((got != got) & (want != want))).all()):
+                    ctx.fail('einsum of two operands over one index: the result is not the semiring einsum of the dense operands '
+                             '(the overlap of the two patterns was not found)', case, got.tolist(), want.tolist(), tags=['value', name, 'unit-family'])
+
+
+def run_impl_model(ctx):
+    """the model `Ei.einsum` of the patterned einsum (unify the co-indexed axes, re-index every operand over the axes that remain
+    free, physical einsum, pattern of the output indices) predicts the REPRESENTATION of the result — physical axes, virtual axes,
+    physical values — and is compared with it token by token up to a renaming of the physical axes (operands with the semiring
+    zero as default and no axis of size 0: what the model covers)"""
+    from .unifygen import canon
+    from .common import enc_ext
+    reqs, meta = [], []
+    for k in range(60 if ctx.quick else 1200):
+        types, ops_ix, out = gen_job(ctx.rng)
+        if not ops_ix or math.prod([ty_numel(t) for t in types.values()] + [1]) > 300:
+            continue
+        for name in ('real', 'viterbi', 'bool'):
+            sr = {'real': fggs.RealSemiring(dtype=torch.float64), 'viterbi': fggs.ViterbiSemiring(dtype=torch.float64), 'bool': fggs.BoolSemiring()}[name]
+            zero = sr.from_int(0).item()
+            if name == 'bool':
+                operands = [random_pt(ctx.rng, [types[l] for l in ix], bool_=True) for ix in ops_ix]
+            elif name == 'viterbi':
+                operands = [random_pt(ctx.rng, [types[l] for l in ix], values=[0.0, -1.0, -2.0, 1.0], defaults=[-math.inf], specials=0.0) for ix in ops_ix]
+            else:
+                operands = [random_pt(ctx.rng, [types[l] for l in ix], values=[0.0, 1.0, 2.0, 3.0, 0.5], defaults=[0.0], specials=0.0) for ix in ops_ix]
+            for t in operands:
+                t.default = zero
+            if any(k_._numel == 0 for t in operands for k_ in t.paxes):
+                continue
+            ids = {}
+            def enc(p_):
+                pa = enc_list(p_.paxes, lambda k_: f'{ids.setdefault(id(k_), len(ids))} {k_._numel}')
+                va = enc_list(p_.vaxes, lambda e: ptgen.enc_axis(e, ids))
+                ph = p_.physical.to(torch.float64) if p_.physical.dtype == torch.bool else p_.physical
+                return f'{enc_list(ph.contiguous().reshape(-1).tolist() if ph.numel() else [], enc_ext)} {pa} {va} {enc_ext(float(p_.default))}'
+            encs = [enc(t) for t in operands]
+            case = dict(semiring=name, operands=encs, inputs=ops_ix, output=out, stream='impl-model')
+            try:
+                with torch.no_grad():
+                    r = einsum(operands, ops_ix, out, sr)
+            except Exception as ex:  # noqa
+                ctx.fail(f'einsum raised {type(ex).__name__}: {str(ex)[:80]}', case, repr(ex), None, tags=['raises', name])
+                continue
+            job = enc_list(list(zip(encs, ops_ix)), lambda p_: f'{p_[0]} {enc_list(p_[1])}') + ' ' + enc_list(out)
+            ids2 = dict(ids)
+            pa = enc_list(r.paxes, lambda k_: f'P {ids2.setdefault(id(k_), len(ids2))} {k_._numel}')
+            va = enc_list(r.vaxes, lambda e: ptgen.enc_axis(e, ids2))
+            want = f'{enc_list(r.physical.to(torch.float64).contiguous().reshape(-1).tolist(), enc_ext)} {pa} {va} {enc_ext(float(r.default))}'
+            reqs.append(f'C07.impl {name} {job} {len(ids) + 5}')
+            meta.append((case, want))
+            ctx.count(f'impl-model.{name}')
+    for (case, want), rep in zip(meta, ctx.driver.ask_many(reqs)):
+        if isinstance(rep, Exception):
+            raise rep
+        toks = rep.split()
+        i = 0; L = int(toks[i]); phys = toks[i + 1:i + 1 + L]; i += 1 + L
+        P = int(toks[i]); pax = toks[i + 1:i + 1 + 2 * P]; i += 1 + 2 * P
+        mp = [str(L)] + phys + [str(P)] + sum((['P', pax[2 * j], pax[2 * j + 1]] for j in range(P)), []) + toks[i:-1]
+        ctx.evaluations += 1
+        if canon(mp) != canon(want.split()):
+            ctx.disagree('Ei.einsum (model of the patterned einsum): representation of the result', case, want, ' '.join(mp))
+        elif toks[-1] != 'T':
+            ctx.disagree('Ei.einsum: the model\'s result is not well formed (PT.wf)', case, want, rep)
+
+
 def run(ctx):
+    run_unit_family(ctx)
+    run_impl_model(ctx)
     n = 150 if ctx.quick else 2000
     reqs, meta = [], []
     for k in range(n):
